@@ -5,7 +5,6 @@ package c02
 import (
 	"bytes"
 	"fmt"
-	"sort"
 	"testing"
 
 	"github.com/bbva/qed/balloon"
@@ -13,42 +12,17 @@ import (
 	"github.com/bbva/qed/protocol"
 	"pgregory.net/rapid"
 
+	"verif/adv"
 	"verif/gen"
 	"verif/pbt"
 	"verif/refmodel"
 	"verif/rig"
 )
 
-// Op is one mutation operator applied to a wire-form answer.
-type Op struct {
-	Kind string `json:"k"`
-	A    int    `json:"a"`
-	B    int    `json:"b"`
-}
-
-// Cand is one candidate answer: a base (genuine answer for event Ev at query
-// version Q, or the honest answer for non-member NonMember-1), operators, and
-// the digest the client asks about.
-type Cand struct {
-	Ev        int  `json:"ev"`         // index into the event sequence; -1: base is a non-member's honest answer
-	NonMember int  `json:"nm"`         // index into the non-member pool when Ev==-1
-	Q         int  `json:"q"`          // query version of the base answer
-	Ops       []Op `json:"ops"`        //
-	Ask       int  `json:"ask"`        // -1: the base's own digest; >=0: pool index (members first, then non-members)
-	AutoSnap  bool `json:"auto"`       // pick snapshots the way client.MembershipAutoVerify does
-}
-
 type H struct {
 	rig.LogHistory
-	NonMembers []string `json:"non_members"`
-	Cands      []Cand   `json:"cands"`
-}
-
-var opKinds = []string{
-	"exists", "actual", "query", "current", "key",
-	"hist-drop", "hist-flip", "hist-rename", "hist-dupkey",
-	"hyper-drop", "hyper-flip", "hyper-rename",
-	"splice-hist", "splice-hyper", "drop3",
+	NonMembers []string   `json:"non_members"`
+	Cands      []adv.Cand `json:"cands"`
 }
 
 const rule = "rapid-drawn logs (n<=64) and, per log, drawn candidate answers = genuine wire-form answers (members at every (e,q), honest answers for non-members incl. digests sharing a member's shortcut-leaf prefix) under 0-3 operators {flip Exists; set Actual/Query/Current version to 0,+-1,another event's version,q+1,current+1,2^63-1,2^64-1; replace KeyDigest; drop/bit-flip/rename/duplicate-under-new-key a history or hyper audit-path entry; drop up to 3 entries; splice the history (or hyper) part of another genuine answer}, asked about the same or another digest; verified as a client does against authentic snapshots (history digest of the answer's QueryVersion, hyper digest of its CurrentVersion; or the selection of client.MembershipAutoVerify). Oracle: accept => Exists and ActualVersion<=QueryVersion and events[ActualVersion]==asked digest. evaluations = candidates checked. Non-trivial: the candidate's claim is false and at least one of its two sub-proofs verifies in isolation; distinct = FNV-64 of (log, candidate)."
@@ -86,7 +60,7 @@ func TestSoundness(t *testing.T) {
 		}
 		pool := n + len(h.NonMembers)
 		for i := 0; i < ncand; i++ {
-			var c Cand
+			var c adv.Cand
 			if rapid.IntRange(0, 4).Draw(rt, "base") == 0 {
 				c.Ev = -1
 				c.NonMember = rapid.IntRange(0, len(h.NonMembers)-1).Draw(rt, "nm")
@@ -97,8 +71,8 @@ func TestSoundness(t *testing.T) {
 			}
 			nops := rapid.SampledFrom([]int{0, 1, 1, 1, 1, 2, 2, 3}).Draw(rt, "nops")
 			for j := 0; j < nops; j++ {
-				c.Ops = append(c.Ops, Op{
-					Kind: rapid.SampledFrom(opKinds).Draw(rt, "op"),
+				c.Ops = append(c.Ops, adv.Op{
+					Kind: rapid.SampledFrom(adv.OpKinds).Draw(rt, "op"),
 					A:    rapid.IntRange(0, 63).Draw(rt, "a"),
 					B:    rapid.IntRange(0, 63).Draw(rt, "b"),
 				})
@@ -112,185 +86,6 @@ func TestSoundness(t *testing.T) {
 		}
 		return h
 	}, exec)
-}
-
-type world struct {
-	b     *rig.B
-	m     *refmodel.Log
-	ds    []refmodel.D
-	nm    []refmodel.D
-	n     int
-	cache map[[2]int]*protocol.MembershipResult
-}
-
-// genuine returns (a fresh copy of) the honest wire-form answer for digest
-// index di (members first, then non-members) at query version q.
-func (w *world) genuine(di, q int) (*protocol.MembershipResult, error) {
-	k := [2]int{di, q}
-	mr, ok := w.cache[k]
-	if !ok {
-		var d refmodel.D
-		if di < w.n {
-			d = w.ds[di]
-		} else {
-			d = w.nm[di-w.n]
-		}
-		p, err := w.b.Bal.QueryDigestMembershipConsistency(rig.Dg(d), uint64(q))
-		if err != nil {
-			w.cache[k] = nil
-			return nil, err
-		}
-		_, mr, err = rig.WireMembership(p)
-		if err != nil {
-			return nil, err
-		}
-		w.cache[k] = mr
-	}
-	if mr == nil {
-		return nil, fmt.Errorf("no answer")
-	}
-	return cloneMR(mr), nil
-}
-
-func cloneMR(mr *protocol.MembershipResult) *protocol.MembershipResult {
-	c := *mr
-	c.Hyper = map[string]hashing.Digest{}
-	for k, v := range mr.Hyper {
-		c.Hyper[k] = append(hashing.Digest{}, v...)
-	}
-	if mr.History != nil {
-		c.History = map[string]hashing.Digest{}
-		for k, v := range mr.History {
-			c.History[k] = append(hashing.Digest{}, v...)
-		}
-	}
-	c.KeyDigest = append(hashing.Digest{}, mr.KeyDigest...)
-	return &c
-}
-
-func keysOf(m map[string]hashing.Digest) []string {
-	ks := make([]string, 0, len(m))
-	for k := range m {
-		ks = append(ks, k)
-	}
-	sort.Strings(ks)
-	return ks
-}
-
-func (w *world) pool(i int) refmodel.D {
-	i %= w.n + len(w.nm)
-	if i < w.n {
-		return w.ds[i]
-	}
-	return w.nm[i-w.n]
-}
-
-func (w *world) version(mr *protocol.MembershipResult, a, b int) uint64 {
-	cur := uint64(w.n - 1)
-	switch a % 9 {
-	case 0:
-		return 0
-	case 1:
-		return mr.ActualVersion + 1
-	case 2:
-		return mr.ActualVersion - 1
-	case 3:
-		return uint64(b % w.n)
-	case 4:
-		return mr.QueryVersion + 1
-	case 5:
-		return cur + 1
-	case 6:
-		return 1<<63 - 1
-	case 7:
-		return 1<<64 - 1
-	default:
-		return cur
-	}
-}
-
-func (w *world) apply(mr *protocol.MembershipResult, op Op) {
-	switch op.Kind {
-	case "exists":
-		mr.Exists = !mr.Exists
-	case "actual":
-		mr.ActualVersion = w.version(mr, op.A, op.B)
-	case "query":
-		mr.QueryVersion = w.version(mr, op.A, op.B)
-	case "current":
-		mr.CurrentVersion = w.version(mr, op.A, op.B)
-	case "key":
-		d := w.pool(op.A)
-		mr.KeyDigest = rig.Dg(d)
-	case "hist-drop", "hist-flip", "hist-rename", "hist-dupkey":
-		ks := keysOf(mr.History)
-		if len(ks) == 0 {
-			return
-		}
-		k := ks[op.A%len(ks)]
-		switch op.Kind {
-		case "hist-drop":
-			delete(mr.History, k)
-		case "hist-flip":
-			v := mr.History[k]
-			if len(v) > 0 {
-				v[op.B%len(v)] ^= 1 << uint(op.B%8)
-			}
-		case "hist-rename":
-			v := mr.History[k]
-			delete(mr.History, k)
-			mr.History[fmt.Sprintf("%d|%d", op.A, op.B%8)] = v
-		case "hist-dupkey":
-			mr.History[fmt.Sprintf("%d|%d", op.B, op.A%8)] = mr.History[k]
-		}
-	case "hyper-drop", "hyper-flip", "hyper-rename":
-		ks := keysOf(mr.Hyper)
-		if len(ks) == 0 {
-			return
-		}
-		k := ks[op.A%len(ks)]
-		switch op.Kind {
-		case "hyper-drop":
-			delete(mr.Hyper, k)
-		case "hyper-flip":
-			v := mr.Hyper[k]
-			if len(v) > 0 {
-				v[op.B%len(v)] ^= 1 << uint(op.B%8)
-			}
-		case "hyper-rename":
-			v := mr.Hyper[k]
-			delete(mr.Hyper, k)
-			mr.Hyper[ks[(op.A+1+op.B)%len(ks)]] = v
-		}
-	case "drop3":
-		for i := 0; i < 1+op.B%3; i++ {
-			if (op.A+i)%2 == 0 {
-				if ks := keysOf(mr.History); len(ks) > 0 {
-					delete(mr.History, ks[(op.A+i)%len(ks)])
-				}
-			} else if ks := keysOf(mr.Hyper); len(ks) > 0 {
-				delete(mr.Hyper, ks[(op.A+i)%len(ks)])
-			}
-		}
-	case "splice-hist", "splice-hyper":
-		ev := op.A % w.n
-		q := ev + op.B%(w.n-ev)
-		o, err := w.genuine(ev, q)
-		if err != nil {
-			return
-		}
-		if op.Kind == "splice-hist" {
-			mr.History = o.History
-			if op.B%2 == 0 {
-				mr.ActualVersion, mr.QueryVersion = o.ActualVersion, o.QueryVersion
-			}
-		} else {
-			mr.Hyper = o.Hyper
-			if op.B%2 == 0 {
-				mr.KeyDigest = o.KeyDigest
-			}
-		}
-	}
 }
 
 func verdict(f func() bool) (ok bool) {
@@ -307,34 +102,35 @@ func exec(h H, rec *pbt.Rec) error {
 	if err != nil {
 		return err
 	}
-	w := &world{b: b, m: m, ds: h.Ds(), n: len(h.Digests), cache: map[[2]int]*protocol.MembershipResult{}}
+	var nm []refmodel.D
 	for _, s := range h.NonMembers {
-		w.nm = append(w.nm, gen.UnHex(s))
+		nm = append(nm, gen.UnHex(s))
 	}
+	w := adv.NewWorld(b, m, h.Ds(), nm)
 	logHash := pbt.Hash(h.LogHistory)
 	var accepted, rejected, uncheckable int64
 	for ci, c := range h.Cands {
 		di := c.Ev
 		if c.Ev < 0 {
-			di = w.n + c.NonMember%len(w.nm)
+			di = w.N + c.NonMember%len(w.NM)
 		} else {
-			di = c.Ev % w.n
+			di = c.Ev % w.N
 		}
-		q := c.Q % w.n
-		mr, err := w.genuine(di, q)
+		q := c.Q % w.N
+		mr, err := w.Genuine(di, q)
 		if err != nil {
 			// re-inserted events legitimately error below their reported version
 			continue
 		}
 		for _, op := range c.Ops {
-			w.apply(mr, op)
+			w.Apply(mr, op)
 		}
-		asked := w.pool(di)
+		asked := w.Pool(di)
 		if c.Ask >= 0 {
-			asked = w.pool(c.Ask)
+			asked = w.Pool(c.Ask)
 		}
 		// the client needs authentic snapshots for the versions the answer names
-		if mr.QueryVersion >= uint64(w.n) || mr.CurrentVersion >= uint64(w.n) {
+		if mr.QueryVersion >= uint64(w.N) || mr.CurrentVersion >= uint64(w.N) {
 			uncheckable++
 			rec.CaseHash(0, false)
 			continue
@@ -351,7 +147,7 @@ func exec(h H, rec *pbt.Rec) error {
 			proof = protocol.ToBalloonProof(mr, hashing.NewSha256Hasher)
 			return proof.DigestVerify(rig.Dg(asked), snap)
 		})
-		truthful := mr.Exists && mr.ActualVersion <= mr.QueryVersion && mr.ActualVersion < uint64(w.n) && w.ds[mr.ActualVersion] == asked
+		truthful := mr.Exists && mr.ActualVersion <= mr.QueryVersion && mr.ActualVersion < uint64(w.N) && w.Ds[mr.ActualVersion] == asked
 		if ok && !truthful {
 			what := "a false claim"
 			switch {
@@ -362,7 +158,7 @@ func exec(h H, rec *pbt.Rec) error {
 				}
 			case mr.ActualVersion > mr.QueryVersion:
 				what = fmt.Sprintf("a claim whose insertion version %d is later than the queried version %d", mr.ActualVersion, mr.QueryVersion)
-			case mr.ActualVersion >= uint64(w.n) || w.ds[mr.ActualVersion] != asked:
+			case mr.ActualVersion >= uint64(w.N) || w.Ds[mr.ActualVersion] != asked:
 				what = fmt.Sprintf("a claim that digest %x… was inserted at version %d, where another event is", asked[:4], mr.ActualVersion)
 			}
 			return fmt.Errorf("candidate %d (base ev=%d q=%d ops=%v ask=%d auto=%v): verifier accepts %s (Exists=%v Actual=%d Query=%d Current=%d)",
